@@ -65,11 +65,12 @@ def suite(wt, f):
     rc1, _ = sh("go test -count=1 -vet=off ./...", wt, 300)
     return rc1
 
-def gen(wt, outdir, maxn, seed):
+def gen(wt, outdir, maxn, seed, skip=0):
     os.makedirs(os.path.join(outdir, "survivors"), exist_ok=True)
     sh("git checkout -q -- . && git clean -fdq", wt)
     cands = candidates(wt)
     random.Random(seed).shuffle(cands)
+    cands = cands[skip:]
     res = {"candidates": len(cands), "tried": 0, "build_fail": 0, "killed": 0, "survived": 0, "list": []}
     for (f, ln, oi, col, new) in cands:
         if res["tried"] >= maxn:
@@ -123,7 +124,7 @@ def props_for(f):
     for p in ps + ["C01", "C02", "C03", "C08", "C13"]:
         if p not in seen:
             seen.add(p); out.append(p)
-    return out[:8]
+    return out[:6]
 
 def judge(wt, outdir, limit):
     g = json.load(open(os.path.join(outdir, "gen.json")))
@@ -162,6 +163,6 @@ if __name__ == "__main__":
     def opt(name, default):
         return int(a[a.index(name) + 1]) if name in a else default
     if mode == "gen":
-        gen(wt, outdir, opt("--max", 300), opt("--seed", 1))
+        gen(wt, outdir, opt("--max", 300), opt("--seed", 1), opt("--skip", 0))
     else:
         judge(wt, outdir, opt("--limit", 1000))
